@@ -18,6 +18,8 @@ ASSUMPTIONS = [
     "whether a request sent completely and followed by an abortive reset was still served is observed (execution log) and given to the model as part of the event",
     "exception classes outside Pyro5/errors.py raised by user code are represented by one generic class (ValueError / KeyError)",
     "a tracked resource whose close() raises (11 Exception subclasses tried) counts as closed once: the call is what is counted; BaseException-only classes (SystemExit, KeyboardInterrupt) are not tried",
+    "item streams (generator results) are only opened and left unexhausted; fetching stream items and stream expiry are C10's subject; streams left by earlier cases are cleared from the daemon before a case",
+    "which resource a class constructor tracks is told to the registered classes by the harness per request (same process)",
     "worker hand-over interleaving (thread server) is forced from the harness process by wrapping Pool.notify_done / Pool.process (the worker parks right after handing itself back while the next connection is dispatched); other interleavings of the pool bookkeeping are C18's subject",
 ]
 IMPORTS = "From V Require Import Model.Cleanup Gen.GenCleanup Harness.Cmp Harness.H13."
@@ -51,8 +53,10 @@ def oracle(case, obs):
     for i, (ev, st) in enumerate(all_steps):
         kind = ev[0]
         for e in st["execs"]:
-            cid, act, r = e[0], e[1], e[2]
-            if act == "track":
+            # whatever user code ran while this event's request was being served (method body or constructor) belongs
+            # to the connection the request was sent on, not to what the call context claimed
+            cid, act, r = (ev[1] if kind in ("req", "raise", "end") else e[0]), e[1], e[2]
+            if act in ("track", "ctor"):
                 tracked.setdefault(cid, set()).add(r)
             elif act == "untrack":
                 tracked.setdefault(cid, set()).discard(r)
@@ -130,12 +134,13 @@ def oracle(case, obs):
 
 
 # ---------------------------------------------------------------- Gallina printers
-def c_target(t):
-    return "TSession" if t == "S" else "TPlain"
+def c_target(t, ctor=None):
+    o = "None" if ctor is None else "(Some %s)" % cnat(ctor)
+    return {"S": "(TSession %s)" % o, "P": "TPlain", "C": "(TPercall %s)" % o}[t]
 
 
 def c_action(act, r):
-    return {"track": "(Track %s)" % cnat(r), "untrack": "(Untrack %s)" % cnat(r), "nop": "Nop"}[act]
+    return {"track": "(Track %s)" % cnat(r), "untrack": "(Untrack %s)" % cnat(r), "nop": "Nop", "stream": "Stream"}[act]
 
 
 def c_event(ev, st):
@@ -143,18 +148,18 @@ def c_event(ev, st):
     if k == "connect":
         return "Connect %s %s" % (cnat(ev[1]), cbool(ev[2]))
     if k == "req":
-        return "Req %s %s %s" % (cnat(ev[1]), c_target(ev[2]), c_action(ev[3], ev[4]))
+        return "Req %s %s %s" % (cnat(ev[1]), c_target(ev[2], ev[5] if len(ev) > 5 else None), c_action(ev[3], ev[4]))
     if k == "raise":
-        return "Raise %s %s %s" % (cnat(ev[1]), c_target(ev[2]), {"plain": "FPlain", "security": "FSecurity", "callback": "FCallback"}[ev[3]])
+        return "Raise %s %s %s" % (cnat(ev[1]), c_target(ev[2], ev[4] if len(ev) > 4 else None), {"plain": "FPlain", "security": "FSecurity", "callback": "FCallback"}[ev[3]])
     if k == "timeout":
         return "Timeout %s %s" % (cnat(ev[1]), cnat(ev[2]))
     how = ev[2]
     if how in ("close", "reset"):
         return "End %s EClose" % cnat(ev[1])
     if how == "cut":
-        served = any(e[0] == ev[1] and e[1] == ev[5] for e in st["execs"])
+        served = any(e[1] == ev[5] for e in st["execs"])
         return "End %s (EAbrupt %s %s)" % (cnat(ev[1]), cnat(ev[3]),
-                                          "(Some (%s, %s))" % (c_target(ev[4]), c_action(ev[5], ev[6])) if served else "None")
+                                          "(Some (%s, %s))" % (c_target(ev[4], ev[8] if len(ev) > 8 else None), c_action(ev[5], ev[6])) if served else "None")
     if how == "malformed":
         return "End %s EMalformed" % cnat(ev[1])
     if how == "badser":
@@ -213,12 +218,14 @@ def gen_case(rng, stype, timeout, reqlen):
                 idle = max(0, idle - 1)
             continue
         c = rng.choice(alive)
-        tgt = rng.choice(["S", "P"])
+        tgt = rng.choice(["S", "S", "P", "P", "C"])
+        # the class's constructor tracks a resource of its own (if it runs for this request)
+        ctor = [rng.randrange(I.NRES)] if tgt in ("S", "C") and rng.random() < 0.5 else []
         if r < 0.62:
-            act = rng.choice(["track", "track", "track", "untrack", "nop"])
-            evs.append(["req", c, tgt, act, rng.randrange(I.NRES)])
+            act = rng.choice(["track", "track", "track", "untrack", "nop", "stream"])
+            evs.append(["req", c, tgt, act, rng.randrange(I.NRES)] + ctor)
         elif r < 0.68:
-            evs.append(["raise", c, tgt, "plain"])
+            evs.append(["raise", c, tgt, "plain"] + ctor)
         elif timeout and r < 0.80 and ntimeouts < 2 and (r >= 0.68 or rng.random() < 0.25):
             ntimeouts += 1
             k = rng.choice([0, 1, 5, 6, 7, 39, 40, 41, reqlen - 1, rng.randrange(1, reqlen)])
@@ -231,11 +238,11 @@ def gen_case(rng, stype, timeout, reqlen):
         else:
             how = rng.choice(ENDINGS)
             if how in ("security", "callback"):
-                evs.append(["raise", c, tgt, how])
+                evs.append(["raise", c, tgt, how] + ctor)
             elif how == "cut":
                 k = rng.choice([0, 1, 4, 5, 6, 7, 20, 39, 40, 41, reqlen - 1, reqlen, rng.randrange(0, reqlen + 1)])
                 act = rng.choice(["track", "track", "untrack", "nop"])
-                evs.append(["end", c, "cut", k, tgt, act, rng.randrange(I.NRES), rng.choice(["close", "close", "reset"])])
+                evs.append(["end", c, "cut", k, tgt, act, rng.randrange(I.NRES), rng.choice(["close", "close", "reset"])] + ctor)
             elif how == "malformed":
                 evs.append(["end", c, "malformed", rng.choice(I.MALFORMED)])
             else:
@@ -245,6 +252,8 @@ def gen_case(rng, stype, timeout, reqlen):
     if timeout and ntimeouts == 0 and alive:
         evs.append(["timeout", rng.choice(alive), rng.choice([0, 1, 6, 40, reqlen - 1])])
     case = {"stype": stype, "timeout": timeout, "events": evs}
+    if rng.random() < 0.4:
+        case["linger"] = 0       # item streams of a connection are dropped when it ends (default: linger 30 s)
     if rng.random() < 0.45:
         # resources whose close() raises (after being counted): must not keep the others from being closed
         n = rng.choice([1, 1, 2, 3])
@@ -287,6 +296,28 @@ def targeted(ctx, reqlen):
             out.append({"stype": stype, "timeout": True, "events": [
                 ["connect", 0, True], ["connect", 1, True], ["req", 0, "S", "track", 0], ["req", 1, "P", "track", 1],
                 ["timeout", 0, k]]})
+    # constructors that track a resource (session and percall classes), constructed by a request of connection 1 right
+    # after the same server thread served connection 0 (multiplex: always; thread pool: worker re-use after 0 ended)
+    for stype in ("thread", "multiplex"):
+        for tgt in ("S", "C"):
+            for tail in ([["end", 1, "close"], ["req", 0, "P", "nop", 0]], [["end", 0, "close"], ["req", 1, tgt, "nop", 0, 5]],
+                         [["raise", 1, tgt, "security", 4]], [["end", 1, "cut", 200, tgt, "track", 2, "close", 5]]):
+                out.append({"stype": stype, "timeout": False, "events": [
+                    ["connect", 0, True], ["connect", 1, True], ["req", 0, "P", "track", 0], ["req", 1, tgt, "nop", 0, 3],
+                    ["req", 0, "S", "track", 1, 2], ["req", 1, tgt, "track", 4, 5]] + tail})
+            out.append({"stype": stype, "timeout": False, "events": [
+                ["connect", 0, True], ["req", 0, "P", "track", 0], ["end", 0, "close"], ["connect", 1, True],
+                ["req", 1, tgt, "nop", 0, 3], ["connect", 2, True], ["req", 2, "P", "nop", 0], ["end", 1, "reset"]]})
+        # item streams left unexhausted on other connections (and lingering streams of ended ones) while a connection ends
+        for linger in (0, 30):
+            for e in (["end", 1, "close"], ["end", 1, "malformed", "magic"], ["raise", 1, "P", "security"], ["end", 1, "cut", 7, "P", "nop", 0, "reset"]):
+                out.append({"stype": stype, "timeout": False, "linger": linger, "events": [
+                    ["connect", 0, True], ["connect", 1, True], ["req", 0, "P", "stream", 0], ["req", 1, "P", "track", 1],
+                    ["req", 1, "S", "stream", 0], e, ["req", 0, "P", "stream", 0], ["end", 0, "close"]]})
+            out.append({"stype": stype, "timeout": False, "linger": linger, "events": [
+                ["connect", 0, True], ["req", 0, "S", "stream", 0], ["req", 0, "P", "track", 2], ["end", 0, "close"],
+                ["connect", 1, True], ["req", 1, "P", "track", 3], ["end", 1, "close"], ["connect", 2, True], ["req", 2, "P", "stream", 0],
+                ["connect", 3, True], ["end", 3, "reset"], ["end", 2, "badser"]]})
     # worker hand-over (thread server): the only worker returns to the pool exactly while the next connection is accepted
     for pre in ([], [["connect", 7, True]], [["connect", 7, True], ["connect", 8, True]]):
         for tail in ([["end", 1, "close"]], [["raise", 1, "S", "security"]],
@@ -355,9 +386,14 @@ def execute(ctx, cases, model_ok, res, stop_after=6):
         res.count("server:%s%s" % (case["stype"], "+timeout" if case["timeout"] else ""))
         if case.get("faulty"):
             res.count("faulty_close_resources:%d" % len(case["faulty"]))
+        res.count("stream_linger:%s" % case.get("linger", 30))
         for ev in case["events"]:
             if ev[0] == "connect" and len(ev) > 3:
                 res.count("event:worker-handover")
+            if ev[0] == "req" and ev[3] == "stream":
+                res.count("event:req:stream")
+            if (ev[0] == "req" and len(ev) > 5) or (ev[0] == "raise" and len(ev) > 4) or (ev[0] == "end" and len(ev) > 8):
+                res.count("event:constructor-tracks:" + ev[2 if ev[0] != "end" else 4])
             res.count("event:" + ev[0] + (":" + str(ev[2]) if ev[0] == "end" else (":" + ev[3] if ev[0] == "raise" else "")))
         for sig, what in oracle(case, o):
             res.violations.append({"signature": sig, "what": what, "case": case})
